@@ -1,7 +1,7 @@
 #!/bin/sh
 # cross_seed.sh <seed_dir>: which of the 20 quick checks report the seeded change (applied to a temp copy)
 D=$(mktemp -d); mkdir -p $D/repo; cp -r /repo/construct /repo/docs $D/repo/; find $D -name __pycache__ -prune -exec rm -rf {} \; 2>/dev/null
-patch -p1 -s -d $D/repo -i $1/patch.diff || { echo "patch failed"; rm -rf $D; exit 3; }
+patch -p1 -s -d $D/repo -i $1/${PATCHFILE:-patch.diff} || { echo "patch failed"; rm -rf $D; exit 3; }
 for i in 01 02 03 04 05 06 07 08 09 10 11 12 13 14 15 16 17 18 19 20; do
   ( SA_EVIDENCE_DIR=$D/ev /verif/check C$i --root $D/repo > $D/C$i.log 2>&1; echo $? > $D/C$i.rc ) &
 done; wait
